@@ -8,7 +8,13 @@ every step in the driver's canonical form, and evaluates the model-free oracle o
 Op descriptors (JSON-able lists), the unit of generation and replay:
   ["add", "e7", elem, label|None, [x,y,z], charge|None]      mol.add_atom(Atom(elem,label=..), xyz[, charge])
   ["readd", ref_id, [x,y,z], charge|None]                   mol.add_atom(<known atom object>, ...)   (member -> error; deleted -> re-added)
-  ["addbad", "e7", elem, label|None]                        mol.add_atom(atom, [1.0, 2.0])           (malformed coordinate)
+  ["addbad", "e7", elem, label|None[, shape]]               mol.add_atom(atom, <coordinate that is not of shape (3,)>)   shape: len2 len4 scalar row k0 k2 k3 col nested
+  ["newbad", elem, shape]                                   mol.new_atom(elem, coord=<the same>)
+  any op may end with "+spelled": every optional argument of the call is written out as its documented default
+  (add_atom(…, charge=None), new_atom(…, isotope=None), connect(…, label=None), remove_substituent(…, ap_label=None));
+  without it the optional arguments are omitted where the op allows
+  ["vedit", k, what, n]                                     an edit THROUGH views[k]: delbond-own | delbond-parent | append-parentbond | append-new |
+                                                            append-foreign | connect | delatom | addatom | addh
   ["new", elem, label|None, [x,y,z]]                        mol.new_atom(elem, label=.., coord=..)
   ["del", ref]                                              mol.del_atom(ref)
   ["con", ref, ref]                                         mol.connect(ref, ref)
@@ -36,6 +42,16 @@ import struct
 import warnings
 
 import numpy as np
+
+
+def bad_coord(shape: str):
+    """coordinate arguments that are not ONE position"""
+    return {"len2": [1.0, 2.0], "len4": [1.0, 2.0, 3.0, 4.0], "scalar": 5.0, "row": np.array([[1.0, 2.0, 3.0]]),
+            "k0": np.zeros((0, 3)), "k2": np.array([[1.0, 2.0, 3.0], [4.0, 5.0, 6.0]]), "k3": np.ones((3, 3)),
+            "col": np.array([[1.0], [2.0], [3.0]]), "nested": [[1.0, 2.0, 3.0]], "empty": []}[shape]
+
+
+BAD_SHAPES = ["len2", "len4", "scalar", "row", "k0", "k2", "k3", "col", "nested", "empty"]
 
 
 def _bits(x) -> str:
@@ -205,6 +221,9 @@ class Runner:
     def apply(self, op: list):
         """returns (driver token, 'ok'|'err', snapshot dict, violations [(kind, what)])"""
         ml, m = self.ml, self.mol
+        spelled = isinstance(op[-1], str) and op[-1] == "+spelled"
+        if isinstance(op[-1], str) and op[-1] in ("+spelled", "+omitted"):
+            op = op[:-1]
         kind = op[0]
         atoms_before = list(m.atoms)
         bonds_before = list(m.bonds)
@@ -228,6 +247,8 @@ class Runner:
                         pend = (id(a), (cc, self.charge_code(0.0 if q is None else q)))
                         if self.kind == "m" and q is not None:
                             m.add_atom(a, list(xyz), q)
+                        elif self.kind == "m" and spelled:
+                            m.add_atom(a, list(xyz), charge=None)
                         else:
                             m.add_atom(a, list(xyz))
                         self.given[pend[0]] = pend[1]
@@ -238,21 +259,37 @@ class Runner:
                         token = f"add {self.spec_tok(a)} {cc} {'-' if q is None else self.charge_code(q)}"
                         if self.kind == "m" and q is not None:
                             m.add_atom(a, list(xyz), q)
+                        elif self.kind == "m" and spelled:
+                            m.add_atom(a, list(xyz), None)
                         else:
                             m.add_atom(a, list(xyz))
                         self.given[id(a)] = (cc, self.charge_code(0.0 if q is None else q))
                     elif kind == "addbad":
-                        _, aid, elem, label = op
+                        aid, elem, label = op[1], op[2], op[3]
+                        shape = op[4] if len(op) > 4 else "len2"
                         a = ml.Atom(ml.Element(elem), label=label)
                         self._reg_atom(a, aid)
                         token = f"addbad {self.spec_tok(a)}"
-                        m.add_atom(a, [1.0, 2.0])
+                        if self.kind == "m" and spelled:
+                            m.add_atom(a, bad_coord(shape), charge=None)
+                        else:
+                            m.add_atom(a, bad_coord(shape))
+                    elif kind == "newbad":
+                        # the atom object is made inside new_atom and never seen: a throw-away identity for the model
+                        token = f"addbad e{900000 + nxt}:{op[1]}:-"
+                        ret = m.new_atom(ml.Element(op[1]), coord=bad_coord(op[2]))
+                        self._reg_atom(ret, f"e{900000 + nxt}")     # accepted: the atom is in the molecule now
                     elif kind == "new":
                         _, elem, label, xyz = op
                         self.next += 1
                         cc = self.coord_code(xyz)
                         token = f"new {elem} {self.label_tok(label)} {cc}"
-                        a = m.new_atom(ml.Element(elem), label=label, coord=list(xyz))
+                        if spelled:
+                            a = m.new_atom(ml.Element(elem), isotope=None, label=label, coord=list(xyz))
+                        elif label is None:
+                            a = m.new_atom(ml.Element(elem), coord=list(xyz))
+                        else:
+                            a = m.new_atom(ml.Element(elem), label=label, coord=list(xyz))
                         self._reg_atom(a, f"o{nxt}")
                         self.given[id(a)] = (cc, 0)
                     elif kind == "del":
@@ -261,7 +298,10 @@ class Runner:
                     elif kind == "con":
                         self.next += 1
                         token = f"con {self.ref_tok(op[1])} {self.ref_tok(op[2])}"
-                        b = m.connect(self.ref_py(op[1]), self.ref_py(op[2]))
+                        if spelled:
+                            b = m.connect(self.ref_py(op[1]), self.ref_py(op[2]), label=None)
+                        else:
+                            b = m.connect(self.ref_py(op[1]), self.ref_py(op[2]))
                         self._reg_bond(b, nxt)
                     elif kind == "bond":
                         self.next += 1
@@ -298,7 +338,10 @@ class Runner:
                         a2 = self.ref_expected(op[2], atoms_before)
                         c2 = self.given.get(id(a2), (None, None))[0] if a2 is not None else None
                         try:
-                            m.remove_substituent(self.ref_py(op[1]), self.ref_py(op[2]), ap_label=op[3])
+                            if op[3] is None and not spelled:
+                                m.remove_substituent(self.ref_py(op[1]), self.ref_py(op[2]))
+                            else:
+                                m.remove_substituent(self.ref_py(op[1]), self.ref_py(op[2]), ap_label=op[3])
                         finally:
                             new_atoms = [a for a in m.atoms if id(a) not in self.atom_ids]
                             new_bonds = [b for b in m.bonds if id(b) not in self.bond_ids]
@@ -399,6 +442,43 @@ class Runner:
                             v = m.substructure([self.ref_py(r) for r in refs])
                         self.views.append((v, list(v.atoms)))
                         self.extra = ",".join(self.atom_ids.get(id(a), "?") for a in v.atoms)
+                    elif kind == "vedit":
+                        v, vatoms = self.views[op[1]]
+                        what, nn = op[2], op[3]
+                        token = "vlocal"
+                        try:
+                            if what == "delbond-own":
+                                v.del_bond(v.bonds[nn % len(v.bonds)])
+                            elif what == "delbond-parent":
+                                cand = [b for b in m.bonds if not any(b is x for x in v.bonds)]
+                                v.del_bond(cand[nn % len(cand)])
+                            elif what == "append-parentbond":
+                                v.append_bond(m.bonds[nn % len(m.bonds)])
+                            elif what == "append-new":
+                                nb = ml.Bond(v.atoms[nn % len(v.atoms)], v.atoms[(nn // 3) % len(v.atoms)])
+                                self.keep.append(nb)
+                                v.append_bond(nb)
+                            elif what == "append-foreign":
+                                fa = ml.Atom("C")
+                                self._reg_atom(fa, f"e{800000 + len(self.keep)}")
+                                v.append_bond(ml.Bond(v.atoms[nn % len(v.atoms)], fa))
+                            elif what == "connect":
+                                self.keep.append(v.connect(0, len(v.atoms) - 1))
+                            elif what == "delatom":
+                                v.del_atom(nn % len(v.atoms))
+                            elif what == "addatom":
+                                fa = ml.Atom("H")
+                                self._reg_atom(fa, f"e{800000 + len(self.keep)}")
+                                v.add_atom(fa, [0.0, 0.0, 0.0])
+                            else:
+                                v.add_implicit_hydrogens()
+                        finally:
+                            # the view may hold other atoms now (also after a call that raised half way)
+                            cur = list(v.atoms)
+                            for a in cur:
+                                if id(a) not in self.atom_ids:
+                                    self._reg_atom(a, f"e{800000 + len(self.keep)}")
+                            self.views[op[1]] = (v, cur)
                     elif kind == "vread":
                         v, vatoms = self.views[op[1]]
                         token = "vread " + (",".join(self.atom_ids[id(a)] for a in vatoms) or "-")
@@ -581,6 +661,13 @@ class Runner:
             for a in atoms_before:
                 if not any(a is x for x in atoms):
                     self.given.pop(id(a), None)
+        if opn in ("addbad", "newbad") and out == "err":
+            if len(atoms) != len(atoms_before) or any(x is not y for x, y in zip(atoms, atoms_before)):
+                v.append(("C05:refused-add-changed-molecule", f"{opn} ({op[-1]}) raised but changed the atom list"))
+        if opn == "vedit":
+            if len(atoms) != len(atoms_before) or len(bonds) != len(bonds_before) or \
+                    any(x is not y for x, y in zip(atoms, atoms_before)) or any(x is not y for x, y in zip(bonds, bonds_before)):
+                v.append(("C05:view-edit-changed-parent-lists", f"{op[2]} through a Substructure changed the atom / bond list of the molecule"))
         if opn in ("newbonds", "rebond") and out == "err":
             if len(bonds) != len(bonds_before) or any(x is not y for x, y in zip(bonds, bonds_before)) or len(atoms) != len(atoms_before):
                 v.append(("C05:refused-append-changed-molecule", f"{opn} raised but changed the molecule"))
